@@ -94,6 +94,8 @@ pub fn draw_plan(rng: &mut Rng, index: u64, tier: Tier, stats: &mut Stats) -> Ex
         fastrand_seed: draw_fastrand_seed(rng, stats),
         yield_in_loader: false,
         clock: Some(draw_clock(rng)),
+        // every eighth plan runs in a pristine process of its own (statics with const initialisers)
+        fresh_process: index % 8 == 1,
         tasks,
     }
 }
@@ -153,8 +155,8 @@ impl Prop for C06 {
         world_b_extra(stats)
     }
     fn abort_needs_fresh_confirmation(&self) -> bool {
-        // shuttle drops lazy statics at the end of each execution; a reference to one of them kept
-        // in a real static would dangle in the NEXT execution of the same worker only
+        // every execution runs in a forked child of its own (exec::execute), so a worker never
+        // carries state of rsass from one execution to the next; a dying WORKER is a harness matter
         true
     }
     fn rule(&self) -> String {
